@@ -354,6 +354,9 @@ class CSSPageRule(cssrule.CSSRuleRules):
                 self._selectorText = newselseq
                 self._specificity = specificity
                 self.style = newStyle
+                for r in self._cssRules:
+                    # the replaced rules are not part of this rule anymore
+                    r._parentRule = None
                 self.cssRules = cssutils.css.CSSRuleList()
                 for r in cssRules:
                     self.cssRules.append(r)
